@@ -475,6 +475,9 @@ def _block_expr(stmts: T.List[ast.stmt], binds: T.Dict[str, ast.AST], depth: int
                 binds[tg.id] = subst(st.value, binds)
                 continue
             return None
+        if isinstance(st, ast.Expr) and isinstance(st.value, ast.Call) and isinstance(st.value.func, ast.Attribute) and st.value.func.attr == 'accept' \
+                and len(st.value.args) == 1 and isinstance(st.value.args[0], ast.Name) and isinstance(binds.get(st.value.args[0].id), ast.Call):
+            continue          # <node>.accept(<visitor built here>): the helper returns what the visitor recorded
         if isinstance(st, ast.If):
             a = _block_expr(st.body + rest, binds, depth + 1)
             b = _block_expr(st.orelse + rest, binds, depth + 1)
@@ -725,7 +728,8 @@ def _calls_touching(node: ast.AST, binds: T.Dict[str, ast.AST]) -> T.Iterator[T.
 
 def reach(fn: T.Union[ast.FunctionDef, ast.AsyncFunctionDef], site: T.Optional[ast.stmt], hyp: Hyp, *,
           observer: T.Optional[Observer] = None, consts: T.Optional[T.Callable[[ast.AST], T.Any]] = None,
-          whole: bool = False, calls: T.Optional[T.Callable[[ast.Call, Evaluator], T.Any]] = None) -> T.List[Reach]:
+          whole: bool = False, calls: T.Optional[T.Callable[[ast.Call, Evaluator], T.Any]] = None,
+          init_binds: T.Optional[T.Dict[str, ast.AST]] = None) -> T.List[Reach]:
     """Paths of fn on which `site` is reached (or, with whole=True, that run to a normal end) without any test
     contradicting the hypothesis.  Deduplicated by the event prefix up to the site."""
     has_while = any(isinstance(n, ast.While) for n in ast.walk(fn))
@@ -749,7 +753,7 @@ def reach(fn: T.Union[ast.FunctionDef, ast.AsyncFunctionDef], site: T.Optional[a
         if sig in seen:
             continue
         seen.add(sig)
-        r = _walk(p, prefix, hyp, observer, consts, calls)
+        r = _walk(p, prefix, hyp, observer, consts, calls, init_binds)
         if r is not None:
             out.append(r)
     if site is not None and not found_site:
@@ -758,8 +762,9 @@ def reach(fn: T.Union[ast.FunctionDef, ast.AsyncFunctionDef], site: T.Optional[a
 
 
 def _walk(p: Path, prefix: T.List[Event], hyp: Hyp, observer: T.Optional[Observer],
-          consts: T.Optional[T.Callable[[ast.AST], T.Any]], calls: T.Optional[T.Callable[[ast.Call, Evaluator], T.Any]] = None) -> T.Optional[Reach]:
-    binds: T.Dict[str, ast.AST] = {}
+          consts: T.Optional[T.Callable[[ast.AST], T.Any]], calls: T.Optional[T.Callable[[ast.Call, Evaluator], T.Any]] = None,
+          init_binds: T.Optional[T.Dict[str, ast.AST]] = None) -> T.Optional[Reach]:
+    binds: T.Dict[str, ast.AST] = dict(init_binds or {})      # parameters bound to what a caller passes (callee analysed in its call context)
     stable = dict(hyp.stable)
     volatile = dict(hyp.volatile)
     contradicted_stable = False
@@ -916,6 +921,11 @@ def _walk(p: Path, prefix: T.List[Event], hyp: Hyp, observer: T.Optional[Observe
                 if isinstance(t, ast.Name):
                     v2 = sub(val)
                     unbind([t])
+                    if not _bindable(val) and isinstance(v2, ast.Call) and INLINER is not None:
+                        inl = INLINER(v2)                 # x = helper(..) with an expression-shaped helper
+                        if inl is not None and _bindable(inl):
+                            binds[t.id] = inl
+                            opaque.discard(t.id)
                     if _bindable(val):
                         binds[t.id] = v2
                         opaque.discard(t.id)
@@ -970,6 +980,6 @@ def _bindable(v: ast.AST) -> bool:
         if isinstance(n, ast.Call):
             f = n.func
             nm = f.attr if isinstance(f, ast.Attribute) else (f.id if isinstance(f, ast.Name) else '')
-            if nm not in PURE and not (nm[:1].isupper()):
+            if nm not in PURE and not (nm[:1].isupper()) and nm != 'cls':
                 return False
     return True
